@@ -27,10 +27,12 @@ import sys
 import tempfile
 
 from bv.common import Property, Failure, time_limit, exc_name, CaseTimeout, Driver
-from bv.props.fsspy import Spy
+from bv.props.fsspy import Spy, OsProxy, _abs
 
 DEST = 'dest.txt'
 PART = 'dest.txt.part'
+TARGET = 'target.bin'       # what a symlinked destination points to
+NOWHERE = 'nowhere'         # ... or the name a link to nothing points to
 
 
 # errnos injected per call (round 1: these are always swept with kills) ...
@@ -206,6 +208,22 @@ def body_closes(case):
     return any(op in CLOSERS or op.startswith('wrap') for op in (case.get('ops') or ()))
 
 
+def hx(t):
+    """UTF-8 hex of a string (`-` = empty), as the Lean driver reads it"""
+    return t.encode('utf-8').hex() or '-'
+
+
+def plain_name(n):
+    """one directory entry, not a path (the domain of the Lean model `C04.partName`)"""
+    return bool(n) and '/' not in n and '\x00' not in n and n not in ('.', '..') and ' ' not in n
+
+
+def part_is_dest(case):
+    """the case asks for a part file that IS the destination (same directory entry)"""
+    pn = case.get('pname')
+    return bool(pn) and os.path.normpath(os.path.join('/d', pn)) == os.path.join('/d', DEST)
+
+
 def ops_sizes(ops):
     """the sizes of the writes of a list of body ops"""
     out = []
@@ -353,6 +371,189 @@ def sys_events(text, dest):
     return evs, calls
 
 
+# ------------------------------------------------------------------------------------------------------------
+# The WINDOWS branch (`if os.name == 'nt':` - replace() with ReplaceFile, atomic_rename) cannot run here as it is.
+# It is run as a second copy of boltons/fileutils.py executed from the CURRENT source text in a module of its own,
+# whose `import os` yields a stand-in with `os.name == 'nt'` and the Windows semantics of `os.rename` (it never
+# replaces: EEXIST), whose `import ctypes` yields a stand-in with `windll.kernel32.ReplaceFile[W]` / `MoveFileExW`
+# (ReplaceFile: fails when the destination does not exist, else replaces it in one step - performed by the real
+# os.rename of this machine), and without `fcntl`.  No source pattern is matched: whatever the module does under
+# `os.name == 'nt'` is what runs.  ASSUMPTION (stated in the meta file): these stand-ins are the Windows kernel.
+_WIN = {'spy': None}
+
+
+def _win_rename(src, dst, *a, **k):
+    if os.path.lexists(dst):
+        raise FileExistsError(errno.EEXIST, 'Cannot create a file when that file already exists', os.fspath(src), 183, os.fspath(dst))
+    return os.rename(src, dst, *a, **k)
+
+
+class WinOsStub:
+    """`os` of the Windows copy while no recorder is installed"""
+    name = 'nt'
+
+    def __getattr__(self, name):
+        if name == 'rename':
+            return _win_rename
+        return getattr(os, name)
+
+
+class WinOsProxy(OsProxy):
+    """`os` of the Windows copy under the recorder: as fsspy.OsProxy, plus `name` and the Windows `rename`"""
+
+    def __getattr__(self, name):
+        if name == 'name':
+            return 'nt'
+        if name == 'rename':
+            spy = self.__dict__['_spy']
+
+            def rename(src, dst, *a, **k):
+                return spy.counted('os.rename', _win_rename, (src, dst) + a, k, [_abs(src), _abs(dst)])
+            return rename
+        return super().__getattr__(name)
+
+
+class _WinApi:
+    """a kernel32 entry point: counted like an os call when a recorder is installed"""
+
+    def __init__(self, name, fn):
+        self.name, self.fn = name, fn
+        self.argtypes = self.restype = self.errcheck = None
+
+    def __call__(self, *args):
+        args = tuple(getattr(a, 'value', a) for a in args)
+        spy = _WIN['spy']
+        if spy is None:
+            return self.fn(*args)
+        src, dst = (args[1], args[0]) if self.name.startswith('ReplaceFile') else (args[0], args[1])
+
+        def real(*a):
+            r = self.fn(*a)
+            spy.log[-1]['ret'] = r
+            return r
+        return spy.counted('win.' + self.name, real, args, {}, [_abs(src), _abs(dst)])
+
+
+def _replace_file(dst, src, backup=None, flags=0, exclude=None, reserved=None):
+    if not os.path.lexists(dst) or not os.path.lexists(src):
+        return 0                                  # ERROR_FILE_NOT_FOUND
+    os.rename(src, dst)
+    if backup:
+        return 0                                  # (backups are not simulated)
+    return 1
+
+
+def _move_file_ex(src, dst, flags=0):
+    if os.path.lexists(dst) and not (flags & 1):  # MOVEFILE_REPLACE_EXISTING
+        return 0
+    try:
+        os.rename(src, dst)
+    except OSError:
+        return 0
+    return 1
+
+
+def _fake_ctypes():
+    import types
+
+    class _Box:
+        def __init__(self, value=None):
+            self.value = value
+    ct = types.ModuleType('ctypes')
+    wt = types.ModuleType('ctypes.wintypes')
+    for n in ('c_wchar_p', 'c_char_p', 'c_void_p', 'c_int', 'c_uint', 'c_ulong', 'c_bool'):
+        setattr(ct, n, type(n, (_Box,), {}))
+    for n in ('DWORD', 'LPVOID', 'BOOL', 'LPCWSTR', 'LPWSTR', 'HANDLE'):
+        setattr(wt, n, type(n, (_Box,), {}))
+    k32 = types.SimpleNamespace(ReplaceFile=_WinApi('ReplaceFile', _replace_file), ReplaceFileW=_WinApi('ReplaceFileW', _replace_file),
+                                MoveFileExW=_WinApi('MoveFileExW', _move_file_ex), MoveFileEx=_WinApi('MoveFileEx', _move_file_ex))
+    ct.windll = types.SimpleNamespace(kernel32=k32)
+    ct.WinDLL = lambda *a, **k: k32
+    ct.WinError = lambda *a, **k: OSError(errno.EIO, 'simulated Windows error')
+    ct.get_last_error = ct.GetLastError = lambda: 2
+    ct.FormatError = lambda *a: 'simulated Windows error'
+    ct.wintypes = wt
+    return ct, wt
+
+
+def win_module():
+    """boltons/fileutils.py executed as on Windows (cached per process)"""
+    if 'mod' in _WIN:
+        return _WIN['mod']
+    import builtins
+    import types
+    import boltons.fileutils as fu
+    with open(fu.__file__, encoding='utf-8') as fh:
+        src = fh.read()
+    stub = WinOsStub()
+    ct, wt = _fake_ctypes()
+
+    def imp(name, globals=None, locals=None, fromlist=(), level=0):
+        if level == 0 and name == 'os':
+            return stub
+        if level == 0 and name == 'ctypes':
+            return ct
+        if level == 0 and name == 'ctypes.wintypes':
+            return wt if fromlist else ct
+        if level == 0 and name in ('fcntl', 'posix', 'pwd', 'grp'):
+            raise ImportError('no module named %s on Windows' % name)
+        return builtins.__import__(name, globals, locals, fromlist, level)
+    mod = types.ModuleType('boltons.fileutils_nt')
+    mod.__file__ = fu.__file__
+    mod.__package__ = 'boltons'
+    b = dict(vars(builtins))
+    b['__import__'] = imp
+    mod.__dict__['__builtins__'] = b
+    exec(compile(src, fu.__file__, 'exec'), mod.__dict__)
+    _WIN['mod'], _WIN['stub'] = mod, stub
+    return mod
+
+
+class LinkAware:
+    """a destination path that is a symbolic link: the path the link resolves to IS the destination for readers,
+    so a save that publishes by replacing the link's target publishes to the destination as well"""
+    aliases = ()
+
+    def role(self, p):
+        if p in self.aliases:
+            return 'dest'
+        return super().role(p)
+
+
+class PosixSpy(LinkAware, Spy):
+    pass
+
+
+class WinSpy(LinkAware, Spy):
+    """the recorder, installed into the Windows copy"""
+
+    def install(self):
+        fuw = win_module()
+        self._installed = fuw
+        fuw.os = WinOsProxy(self)
+        fuw.open = self._builtin_open
+        _WIN['spy'] = self
+        return self
+
+    def uninstall(self):
+        fuw = self._installed
+        if fuw is not None:
+            fuw.os = _WIN['stub']
+            try:
+                del fuw.open
+            except AttributeError:
+                pass
+        _WIN['spy'] = None
+        self._installed = None
+
+    def _event(self, rec):
+        if rec['call'].startswith('win.'):
+            if not rec['ok'] or not rec.get('ret'):
+                return 'n'                         # the call reported failure: no effect
+            return 'R' if [self.role(q) for q in rec['paths']] == ['part', 'dest'] else '?'
+        return super()._event(rec)
+
+
 def classify(old, new, cur):
     """a absent, o old content, n new content, b both (old == new), X anything else"""
     if cur is None:
@@ -380,7 +581,13 @@ class C04(Property):
             'one injected OS failure at every call of eleven (thorough: 59) base saves where every errno of a 40-member family '
             '(thorough: every errno of the platform) is probed in a recorded run and each errno after which the save BEHAVES '
             'differently gets its own case, a second failure at every later call (first three bases; thorough: all), Ctrl-C '
-            '(KeyboardInterrupt) raised at every call of three saves; and (seeded) random write patterns / op sequences. For each case '
+            '(KeyboardInterrupt) raised at every call of three saves; the NAME of the part file (12 destination names x 15 part_file '
+            'arguments - absent, empty, the destination itself, plain names, paths - judged by the Lean model C04.partName, and whole saves '
+            'whose part_file names the destination); the WINDOWS branch (the current source executed as on Windows against stand-ins for '
+            'os.rename / ReplaceFile: flag grid, stale part, closing bodies, the primitives called directly); destinations that are SYMBOLIC '
+            'LINKS (to a file, to nothing) and a part name taken by a symbolic link to the destination (judged on the link-aware Lean model); '
+            'and (seeded) random write patterns / op sequences. After every real kill the directory listing and the hard-link identity of '
+            'part and destination are compared with the model, and a reader that opened the destination before the save reads it at the end. For each case '
             'the recorded event trace is judged by the Lean SafeTrace predicate and the save is re-run in a child process that '
             'is killed immediately before every recorded call (and after the last). Non-trivial = the trace contains a '
             'publishing event and at least one kill point on each side of it; distinct = distinct case.')
@@ -389,7 +596,10 @@ class C04(Property):
                    '(fsync makes the page cache durable; rename/link are atomic; directory operations reach the disk in order)',
                    'kill points are the recorded calls (os.*, file.write/flush/close); a death inside a call is '
                    'covered by the model only through the atomicity of the kernel operations',
-                   'POSIX branch of atomic_rename/replace',
+                   'POSIX branch of atomic_rename/replace for real; the Windows branch is executed from the current source against stand-ins written in '
+                   'the harness (os.rename never replaces: EEXIST; ReplaceFile fails without a destination, else is this machine\'s rename): that the real '
+                   'ReplaceFile is one atomic directory operation is assumed',
+                   'part_file arguments that are paths rather than file names are outside the documented use; they are only checked not to alias the destination',
                    'a body that closes or detaches the part file itself has taken the file away from the saver: refusing that save '
                    'with the ValueError of the closed file and an untouched destination is accepted (as is completing it correctly)',
                    'a second writer is simulated in the same process (a second saver entered while the first is inside its block), '
@@ -412,9 +622,24 @@ class C04(Property):
                'namespace C04.Gen\n'
                'def textFlagsExcl : Bool := %s\ndef textFlagsCreat : Bool := %s\ndef textFlagsTrunc : Bool := %s\n'
                'def binFlagsExcl : Bool := %s\ndef binFlagsCreat : Bool := %s\ndef binFlagsTrunc : Bool := %s\n'
+               '/-- what `AtomicSaver(dest)` appends to the destination path for the default part file name\n'
+               '    (evaluated: part_path of a saver constructed on a probe path, minus its dest_path) -/\n'
+               'def partSuffix : List Char := [%s]\n'
                'end C04.Gen\n') % (b(txt & os.O_EXCL), b(txt & os.O_CREAT), b(txt & os.O_TRUNC),
-                                    b(binf & os.O_EXCL), b(binf & os.O_CREAT), b(binf & os.O_TRUNC))
+                                    b(binf & os.O_EXCL), b(binf & os.O_CREAT), b(binf & os.O_TRUNC),
+                                    ', '.join('Char.ofNat %d' % ord(c) for c in self.part_suffix(fu)))
         return {'C04_Consts.lean': src}
+
+    @staticmethod
+    def part_suffix(fu):
+        """the default part file name is the destination path plus this suffix ('' when the current source
+        does not build it that way: the obligation `source_part_suffix` then fails)"""
+        try:
+            sv = fu.AtomicSaver('/bv-probe-dir/bv-probe-name')
+            dp, pp = os.fspath(sv.dest_path), os.fspath(sv.part_path)
+            return pp[len(dp):] if pp.startswith(dp) else ''
+        except Exception:
+            return ''
 
     # ------------------------------------------------------------------ generation
     PATTERNS = {'none': [], 'one': [5], 'many': [3, 1, 4, 1, 5, 9, 2, 6], 'large': [300000]}
@@ -505,6 +730,65 @@ class C04(Property):
             yield dict(base, buffering=buffering, txt=txt, sizes=[3, 70000, 1], dest=self.PRESENT)
             yield dict(base, buffering=buffering, txt=txt, sizes=[5], post='seek0')
 
+    NAMES = ('dest.txt', 'a', 'data.json.part', '.hidden', 'x.part', 'part', 'd\u00e9st.txt', 'a b'.replace(' ', '_'), 'UPPER.TXT', '-', '~', 'x' * 60)
+
+    def name_cases(self):
+        """the NAME of the part file: what `AtomicSaver(dest, part_file=...)` chooses, against the Lean model
+        `C04.partName`; and whole saves whose part_file names the destination itself"""
+        for d in self.NAMES:
+            pfs = [None, '', d, d + '.part', '.part', 'x.tmp', d[:-1] or 'q', d + 'x', d.upper(), '.' + d]
+            for pf in pfs:
+                yield {'kind': 'pp', 'dname': d, 'pf': pf}
+            # part_file arguments that are paths, not names (outside the Lean model: oracle only)
+            for pf in ('./' + d, 'sub/../' + d, 'sub/' + d, '../' + d, d + '/'):
+                yield {'kind': 'pp', 'dname': d, 'pf': pf}
+        base = self.BASE
+        for dest, owp, raises in itertools.product((None, self.PRESENT), (0, 1), (0, 1)):
+            yield dict(base, dest=dest, owp=owp, raises=raises, pname=DEST)
+        yield dict(base, dest=self.PRESENT, pname='./' + DEST, owp=1, raises=1)
+        yield dict(base, dest=None, pname=DEST, ow=0, txt=1, sizes=[3, 70000])
+
+    def win_cases(self):
+        """the Windows branch of replace() / atomic_rename(), run from the current source against stand-ins for the
+        Windows `os.rename` (never replaces) and `ReplaceFile` (see win_module)"""
+        base, W = self.BASE, self.with_ops
+        for ow, dest, raises, txt, sizes in itertools.product((1, 0), (None, self.PRESENT), (0, 1), (0, 1), ([5], [3, 70000])):
+            yield dict(base, win=1, ow=ow, dest=dest, raises=raises, txt=txt, sizes=sizes)
+        for dest in (None, self.PRESENT, [0o444, 11]):
+            yield dict(base, win=1, dest=dest, part=1, owp=1)
+            yield dict(base, win=1, dest=dest, rm=0, raises=1)
+            yield dict(base, win=1, dest=dest, perms=0o600, sizes=[])
+            yield dict(base, win=1, dest=dest, cls=1, pname='custom.tmp')
+            yield dict(base, win=1, dest=dest, reuse=1)
+            yield W(dict(base, win=1, dest=dest), ['w5', 'close'])
+            yield W(dict(base, win=1, dest=dest), ['w5', 'fsync', 'w3', 'seek0'])
+        # the publishing primitives of the Windows branch called directly
+        for fn, ow, dest in itertools.product(('atomic_rename', '_atomic_rename', 'replace'), (1, 0), (None, self.PRESENT)):
+            if fn == 'replace' and not ow:
+                continue
+            yield dict(base, win=1, kind='mv', fn=fn, ow=ow, dest=dest, sizes=[7])
+
+    def symlink_cases(self):
+        """the destination path is a symbolic link (to a regular file with the old content / to nothing); the part
+        file's name is taken by a symbolic link that points at the destination"""
+        base, W = self.BASE, self.with_ops
+        for ow, raises, txt, sizes in itertools.product((1, 0), (0, 1), (0, 1), ([5], [3, 70000])):
+            yield dict(base, sym='file', dest=self.PRESENT, ow=ow, raises=raises, txt=txt, sizes=sizes)
+            yield dict(base, sym='dangling', dest=None, ow=ow, raises=raises, txt=txt, sizes=sizes)
+        for sym, dest in (('file', [0o600, 4]), ('file', [0o444, 11]), ('dangling', None)):
+            yield dict(base, sym=sym, dest=dest, perms=0o640)
+            yield dict(base, sym=sym, dest=dest, rm=0, raises=1)
+            yield dict(base, sym=sym, dest=dest, rel=1, pathlib=1)
+            yield dict(base, sym=sym, dest=dest, win=1)
+            yield W(dict(base, sym=sym, dest=dest), ['w5', 'close'])
+            yield W(dict(base, sym=sym, dest=dest), ['w5', 'intrude', 'w3'])
+        for dest, owp, raises, sym in itertools.product((None, self.PRESENT), (0, 1), (0, 1), (None, 'file')):
+            if sym and dest is None:
+                continue
+            yield dict(base, dest=dest, part=1, psym=1, owp=owp, raises=raises, **({'sym': sym} if sym else {}))
+        yield dict(base, dest=self.PRESENT, part=1, psym=1, owp=1, ow=0)
+        yield dict(base, dest=None, part=1, psym=1, owp=1, ow=0, txt=1, sizes=[70000])
+
     def fault_cases(self, fb, second):
         """one operating-system failure at every call of the save `fb`, for every errno of the family that makes
         the save behave differently; `second`: also a second failure at every later call"""
@@ -568,6 +852,9 @@ class C04(Property):
         # ---- round 2, small and adversarial first
         yield from self.body_cases()
         yield from self.instance_cases()
+        yield from self.name_cases()
+        yield from self.win_cases()
+        yield from self.symlink_cases()
         # read-only / mode-0 destinations (replacing them needs no write permission on the file itself)
         for mode, ow, raises in itertools.product((0o444, 0o400, 0), (1, 0), (0, 1)):
             yield dict(base, dest=[mode, 11], ow=ow, raises=raises, sizes=[3, 4])
@@ -696,21 +983,59 @@ class C04(Property):
         save of the same saver object with rm_part_on_exc=False"""
         return 1 if (case['part'] or (case.get('reuse') == 2 and not case['rm'])) else 0
 
-    @staticmethod
-    def pname(case):
-        return case.get('pname') or PART
+    _default_part = None
+
+    def pname(self, case):
+        """the name of the part file of this case: the explicit part_file, else what the CURRENT source chooses for
+        the destination's name (evaluated on a probe directory; the statement does not fix the name)"""
+        if case.get('pname'):
+            return case['pname']
+        if C04._default_part is None:
+            name = PART
+            try:
+                import boltons.fileutils as fu
+                sv = fu.AtomicSaver(os.path.join('/bv-probe-dir', DEST))
+                if os.path.dirname(os.fspath(sv.part_path)) == '/bv-probe-dir':
+                    name = os.path.basename(os.fspath(sv.part_path))
+            except Exception:
+                pass
+            C04._default_part = name
+        return C04._default_part
+
+    def part_path(self, case, dest):
+        """where the part file of this case lies: the explicit part_file in the destination's directory, else what the
+        CURRENT source chooses for this very destination (the constructor is evaluated; it touches nothing)"""
+        if case.get('pname'):
+            return os.path.join(os.path.dirname(dest), case['pname'])
+        try:
+            if case.get('win'):
+                fu = win_module()
+            else:
+                import boltons.fileutils as fu
+            return os.fspath(fu.AtomicSaver(dest).part_path)
+        except Exception:
+            return os.path.join(os.path.dirname(dest), self.pname(case))
 
     def prepare(self, case):
         d = tempfile.mkdtemp(prefix='bvC04-')
         dest = os.path.join(d, DEST)
         if case['dest'] is not None:
-            with open(dest, 'wb') as f:
+            # sym='file': the destination path is a symbolic link to a regular file holding the old content
+            real = os.path.join(d, TARGET) if case.get('sym') == 'file' else dest
+            with open(real, 'wb') as f:
                 f.write(b'\x07' * case['dest'][1])
-            os.chmod(dest, case['dest'][0])
-        if case['part']:
-            with open(os.path.join(d, self.pname(case)), 'wb') as f:
+            os.chmod(real, case['dest'][0])
+            if real != dest:
+                os.symlink(TARGET, dest)
+        elif case.get('sym') == 'dangling':
+            os.symlink(NOWHERE, dest)      # a link to nothing: readers find no file, the NAME exists
+        if case['part'] and case.get('psym'):
+            # the part file's name is taken by a symbolic link pointing at the destination
+            os.symlink(DEST, self.part_path(case, dest))
+        elif case['part']:
+            with open(self.part_path(case, dest), 'wb') as f:
                 f.write(b'\x09\x09')
-            os.chmod(os.path.join(d, self.pname(case)), 0o640)
+            os.chmod(self.part_path(case, dest), 0o640)
         if case.get('kind') == 'mv':    # a finished part file, to be published by atomic_rename / replace
             with open(os.path.join(d, PART), 'wb') as f:
                 f.write(b'\x01' * sum(case['sizes']))
@@ -719,12 +1044,14 @@ class C04(Property):
         return d, dest
 
     def do_save(self, fu, dest, case, spy):
+        if case.get('sym'):
+            spy.aliases = (os.path.realpath(dest),)
         if case.get('kind') == 'mv':
             spy.part_path = os.path.abspath(dest + '.part')
         elif self.stale(case):
             # a part file already lies there under its documented name: calls on it count from the start
             # (otherwise the recorder learns the part path from the first open for writing)
-            spy.part_path = os.path.join(os.path.dirname(os.path.abspath(dest)), self.pname(case))
+            spy.part_path = os.path.abspath(self.part_path(case, os.path.abspath(dest)))
         if case.get('prior'):
             # an EARLIER save in the same process (another saver object, another destination in the same directory)
             # suffered an operating-system failure: nothing of it may leak into the recorded save
@@ -738,21 +1065,70 @@ class C04(Property):
                 pass
             finally:
                 sp.uninstall()
+        held = []
+
+        def start():
+            # a reader opens the destination just before the recorded save begins and keeps the descriptor
+            try:
+                held.append(open(dest, 'rb'))
+            except PermissionError:
+                held.append(None)           # not readable by this user: nothing to compare
+            except OSError:
+                pass
+            spy.install()
         try:
-            _NS['run_save'](fu, dest, case, spy.install)
+            _NS['run_save'](fu, dest, case, start)
         finally:
             spy.uninstall()
+            spy.held = None
+            if not held and not spy.log and os.path.isfile(dest):
+                # the recorded save never began (refused by the constructor): the reader opens now
+                try:
+                    held.append(open(dest, 'rb'))
+                except OSError:
+                    held.append(None)
+            if held and held[0] is None:
+                spy.held = 'unreadable'
+            elif held:
+                try:
+                    spy.held = held[0].read()
+                finally:
+                    held[0].close()
 
     @staticmethod
     def look(path):
+        # what a READER of the path finds (symbolic links are followed; a link to nothing reads as no file)
         try:
-            st = os.lstat(path)
+            st = os.stat(path)
         except OSError:
             return None
         if not stat.S_ISREG(st.st_mode):
             return b'?notreg'
         with open(path, 'rb') as fh:
             return fh.read()
+
+    def dir_letter(self, d, dest, case):
+        """what a listing of the directory shows besides the destination (the harness owns the directory: any other
+        name is the part file, whatever the current source calls it): - nothing, p a part file,
+        l a part file that is a hard link to the inode readers of the destination reach (the window between link and unlink)"""
+        try:
+            names = [n for n in os.listdir(d) if n not in (DEST, TARGET, NOWHERE) and not n.startswith(DEST + '.prior')]
+        except OSError:
+            return '-'
+        if not names:
+            return '-'
+        try:
+            sd = os.stat(dest)
+        except OSError:
+            return 'p'
+        for n in names:
+            try:
+                sp = os.lstat(os.path.join(d, n))
+            except OSError:
+                continue
+            if (sp.st_ino, sp.st_dev) == (sd.st_ino, sd.st_dev):
+                return 'l'
+        return 'p'
 
     _strace = None
 
@@ -792,8 +1168,9 @@ class C04(Property):
                 obs['events'], obs['calls'] = parsed
             obs['final'] = classify(old, new, self.look(dest))
             names = sorted(os.listdir(d))
-            obs['part'] = 1 if self.pname(case) in names else 0
-            obs['extra'] = [n for n in names if n not in (DEST, self.pname(case))]
+            pp = self.part_path(case, dest)
+            obs['part'] = 1 if os.path.lexists(pp) else 0
+            obs['extra'] = [n for n in names if n not in (DEST, TARGET, NOWHERE, os.path.basename(pp))]
         except subprocess.TimeoutExpired:
             obs['out'] = 'exc:CaseTimeout'
         finally:
@@ -853,7 +1230,9 @@ class C04(Property):
         d, dest = self.prepare(case)
         try:
             plan = {f[0]: f[1] for f in (case.get('fault'), case.get('fault2')) if f} or None
-            spy = Spy(dest, plan=plan)
+            if case.get('win'):
+                fu = win_module()
+            spy = (WinSpy if case.get('win') else PosixSpy)(dest, plan=plan)
             try:
                 self.do_save(fu, dest, case, spy)
             except BODY_EXC:
@@ -866,11 +1245,14 @@ class C04(Property):
                 obs['out'] = 'exc:' + exc_name(e)
             obs['events'] = spy.events()
             obs['calls'] = spy.calls()
+            hr = getattr(spy, 'held', None)
+            obs['held'] = '-' if old is None else ('o' if hr == old or hr == 'unreadable' else 'X')
             obs['fired'] = int(any(r.get('injected') for r in spy.log))
             obs['final'] = classify(old, new, self.look(dest))
             names = sorted(os.listdir(d))
-            obs['part'] = 1 if self.pname(case) in names else 0
-            obs['extra'] = [n for n in names if n not in (DEST, self.pname(case)) and not n.startswith(DEST + '.prior')]
+            pp = self.part_path(case, dest)
+            obs['part'] = 1 if (os.path.lexists(pp) and not part_is_dest(case)) else 0
+            obs['extra'] = [n for n in names if n not in (DEST, TARGET, NOWHERE, os.path.basename(pp)) and not n.startswith(DEST + '.prior')]
             obs['n_calls'] = spy.n
         finally:
             os.chdir('/')
@@ -887,9 +1269,29 @@ class C04(Property):
         except (CaseTimeout, ChildDied) as e:
             return [{'events': [], 'calls': [], 'out': 'exc:' + exc_name(e), 'kills': '', 'final': '?', 'part': 0, 'extra': []} for _ in cases]
 
+    def impl_pp(self, case):
+        """what the constructor chooses as part path (public attributes dest_path / part_path)"""
+        import boltons.fileutils as fu
+        obs = {'pp': 'ok', 'same_dir': 0, 'name': '', 'is_dest': 0}
+        try:
+            with time_limit(10):
+                kw = {} if case['pf'] is None else {'part_file': case['pf']}
+                sv = fu.AtomicSaver(os.path.join('/bv-no-such-dir', case['dname']), **kw)
+                dp, pp = os.fspath(sv.dest_path), os.fspath(sv.part_path)
+                obs['same_dir'] = int(os.path.dirname(pp) == os.path.dirname(dp))
+                obs['name'] = os.path.basename(pp)
+                obs['is_dest'] = int(os.path.normpath(pp) == os.path.normpath(dp))
+        except CaseTimeout:
+            obs['pp'] = 'exc:CaseTimeout'
+        except Exception as e:
+            obs['pp'] = 'exc:' + exc_name(e)
+        return obs
+
     def impl(self, case, kills=True):
         if case.get('kind') == 'sys':
             return self.impl_sys(case)
+        if case.get('kind') == 'pp':
+            return self.impl_pp(case)
         import boltons.fileutils as fu
         old, new = self.contents(case)
         obs = {'events': [], 'calls': [], 'out': 'ok', 'kills': '', 'final': '?', 'part': 0, 'extra': []}
@@ -903,6 +1305,7 @@ class C04(Property):
                 plan = {f[0]: f[1] for f in (case.get('fault'), case.get('fault2')) if f} or None
                 # 2. the same save killed immediately before call k, k = 0..N (k = N: never killed)
                 kills_l = []
+                dirs_l = []
                 running = []
 
                 def drain():
@@ -910,6 +1313,7 @@ class C04(Property):
                         os.waitpid(pid, 0)
                         pids.remove(pid)
                         kills_l.append(classify(old, new, self.look(destk)))
+                        dirs_l.append(self.dir_letter(dk, destk, case))
                         shutil.rmtree(dk, ignore_errors=True)
                     del running[:]
                 for k in (range(n_calls + 1) if kills else ()):
@@ -920,7 +1324,10 @@ class C04(Property):
                         try:
                             try:
                                 os.umask(case['umask'])
-                                self.do_save(fu, destk, case, Spy(destk, kill_at=k, plan=plan))
+                                if case.get('win'):
+                                    self.do_save(win_module(), destk, case, WinSpy(destk, kill_at=k, plan=plan))
+                                else:
+                                    self.do_save(fu, destk, case, PosixSpy(destk, kill_at=k, plan=plan))
                             except BaseException:
                                 pass
                         finally:
@@ -931,6 +1338,7 @@ class C04(Property):
                         drain()
                 drain()
                 obs['kills'] = ''.join(kills_l)
+                obs['dirs'] = ''.join(dirs_l)
         except ChildDied:
             obs['out'] = 'exc:ProcessEnded'
         except CaseTimeout:
@@ -951,6 +1359,10 @@ class C04(Property):
     def line(self, case):
         if case.get('kind') == 'mv':
             return None            # the publishing primitive alone: no save for the automaton to judge (oracle-only)
+        if case.get('kind') == 'pp':
+            if not plain_name(case['dname']) or not (case['pf'] in (None, '') or plain_name(case['pf'])):
+                return None        # a path, not a name: outside the model `C04.partName` (oracle-only)
+            return 'P %s %s' % (hx(case['dname']), 'N' if case['pf'] is None else hx(case['pf']))
         k = self.key(case)
         if k not in self._cache:
             self.impl(case)
@@ -958,16 +1370,38 @@ class C04(Property):
         dest = '-' if case['dest'] is None else '%d:%d' % tuple(case['dest'])
         if case.get('reuse') == 1:
             dest = '420:11'        # left by the earlier save through the same saver object
+        elif case.get('sym'):
+            dest = 'L' + dest      # the destination path is a symbolic link: the driver runs the link-aware model
         return ' '.join(['S' if case.get('kind') == 'sys' else 'A', str(case['umask']), dest, str(self.stale(case))] + evs)
 
     def render(self, case, obs):
+        if case.get('kind') == 'pp':
+            # any exception of the constructor is "refused" (class and message are not the statement's business)
+            if obs['pp'] != 'ok':
+                return 'refused'
+            return 'ok %s' % hx(obs['name']) if obs['same_dir'] else 'ok outside-the-directory'
         # what a safe, feasible trace must give; the letters are the REAL kill outcomes
-        return 'safe=1 exec=ok proc=%s power=ok final=%s part=%d' % (
-            '-' if obs['kills'] is None else obs['kills'], obs['final'], obs['part'])
+        return 'safe=1 exec=ok proc=%s power=ok final=%s part=%d dirs=%s held=%s' % (
+            '-' if obs['kills'] is None else obs['kills'], obs['final'], obs['part'],
+            '-' if obs.get('dirs') is None else obs['dirs'], '-' if obs['kills'] is None else obs.get('held', '-'))
 
     # ------------------------------------------------------------------ oracle: C04 restated on trace + kills
     def oracle(self, case, obs):
         st = self.stats
+        if case.get('kind') == 'pp':
+            # the part file must be a directory entry of its own: an accepted part_file never IS the destination
+            st['part_name_cases'] = st.get('part_name_cases', 0) + 1
+            self._nt = obs['pp'] == 'ok' and case['pf'] not in (None, '')
+            if obs['pp'] == 'exc:CaseTimeout':
+                return Failure('unexpected-exception', 'AtomicSaver() did not return')
+            if obs['pp'] == 'ok' and obs['is_dest']:
+                return Failure('part-is-destination', 'AtomicSaver(%r, part_file=%r) accepts a part file that is the destination itself: '
+                               'the destination is created empty and written in place' % (case['dname'], case['pf']))
+            if obs['pp'] != 'ok' and (case['pf'] in (None, '') or (plain_name(case['pf']) and case['pf'] != case['dname'])):
+                return Failure('unexpected-exception', 'AtomicSaver(%r, part_file=%r) raised %s' % (case['dname'], case['pf'], obs['pp'][4:]))
+            if obs['pp'] == 'ok' and plain_name(case['pf'] or 'x') and not obs['same_dir']:
+                return Failure('part-not-exclusive', 'the part file is not created in the directory of the destination')
+            return None
         st['saves'] = st.get('saves', 0) + 1
         st['kill_points'] = st.get('kill_points', 0) + len(obs['kills'] or '')
         if case.get('kind') == 'sys':
@@ -978,11 +1412,15 @@ class C04(Property):
         # a body that closes (detaches) the part file itself takes the file away from the saver: the save may then be
         # refused with the ValueError of the closed file (destination untouched) - or be completed, correctly
         closed_refusal = body_closes(case) and obs['out'] == 'exc:ValueError'
-        if obs['out'].startswith('exc:') and not closed_refusal:
+        # a part_file that names the destination itself: the constructor refuses (nothing has been called yet)
+        alias_refusal = part_is_dest(case) and obs['out'].startswith('exc:') and obs['out'] not in ('exc:CaseTimeout', 'exc:ProcessEnded') and not obs['events']
+        if alias_refusal:
+            st['part_named_as_destination_refused'] = st.get('part_named_as_destination_refused', 0) + 1
+        if obs['out'].startswith('exc:') and not closed_refusal and not alias_refusal:
             return Failure('unexpected-exception', 'atomic_save raised %s' % obs['out'][4:])
         if body_closes(case):
             st['closing_bodies'] = st.get('closing_bodies', 0) + 1
-        for key in ('reuse', 'rel', 'pathlib', 'pname', 'fault2', 'prior', 'cls'):
+        for key in ('reuse', 'rel', 'pathlib', 'pname', 'fault2', 'prior', 'cls', 'win', 'sym', 'psym'):
             if case.get(key):
                 st['with:' + key] = st.get('with:' + key, 0) + 1
         if 'intrude' in (case.get('ops') or ()):
@@ -1041,6 +1479,9 @@ class C04(Property):
                     return Failure('early-publication', 'new content visible when killed before call #%d, before the publishing event' % k)
         # a with-block that exits normally leaves the complete new content and no part file
         refused = (not case['ow']) and (case['dest'] is not None or case.get('reuse') == 1)
+        if (not case['ow']) and case.get('sym') == 'dangling' and obs['out'] != 'ok':
+            # overwrite=False over a link to nothing: the NAME exists, no file does - refusing is as good as saving
+            refused = True
         blocked = self.stale(case) and not case['owp']
         if obs.get('fired'):
             if case.get('fault') and case['fault'][1] == 'K':
@@ -1054,6 +1495,9 @@ class C04(Property):
                     obs['final']))
             if obs['final'] == 'n' and old_letter != 'n' and not pubs:
                 return Failure('dest-touched', 'new content at the destination without a publishing event')
+        elif alias_refusal:
+            if obs['final'] != old_letter:
+                return Failure('partial-destination', 'the saver refused its arguments but the destination is %s' % obs['final'])
         elif closed_refusal:
             if obs['final'] != old_letter:
                 return Failure('partial-destination', 'the save was refused (the body had closed the part file) but the destination is %s' % obs['final'])
@@ -1069,6 +1513,13 @@ class C04(Property):
         self._nt = bool(pubs) and 0 < pubs[0] < len(evs)
         return None
 
+    def finding_part_file_is_destination(self, case, failure):
+        """C04-part-file-is-destination: ONLY cases whose part_file argument resolves to the destination's own directory
+        entry (the name cases judged `part-is-destination`, and whole saves run with such a part_file)"""
+        if case.get('kind') == 'pp':
+            return failure.tag == 'part-is-destination'
+        return part_is_dest(case) and failure.tag in ('dest-touched', 'partial-destination', 'early-publication', 'normal-exit')
+
     def nontrivial(self, case, obs):
         return getattr(self, '_nt', False)
 
@@ -1083,6 +1534,9 @@ class C04(Property):
             cases += [self.with_ops(dict(self.BASE, dest=dest, txt=txt, rm=rm, raises=raises), ops)
                       for dest, txt, rm, raises, ops in itertools.product((None, self.PRESENT), (0, 1), (1, 0), (0, 1),
                                                                           (['w5', 'close'], ['w3', 'w70000', 'with'], ['close']))]
+            # ... and the Windows copy against the model's saverTraceNt
+            cases += [dict(self.BASE, win=1, ow=ow, dest=dest, raises=raises, rm=rm, sizes=[3, 4])
+                      for ow, dest, raises, rm in itertools.product((1, 0), (None, self.PRESENT), (0, 1), (1, 0))]
             lines, obs_ev = [], []
             for c in cases:
                 o = self.impl(c, kills=False)
@@ -1092,7 +1546,7 @@ class C04(Property):
                 lines.append(' '.join(['T', '%d%d%d%d' % (c['ow'], c['owp'], c['rm'], c['txt']),
                                        '-' if c['perms'] is None else str(c['perms']), str(c['umask']), dest,
                                        str(c['part']), str(min(c['raises'], 1)), ','.join(map(str, c['sizes'])) or '-']
-                                      + (['closed'] if body_closes(c) else [])))
+                                      + (['closed'] if body_closes(c) else []) + (['nt'] if c.get('win') else [])))
                 obs_ev.append(' '.join(e for e in o['events'] if e != 'n'))
             outs = drv.query(lines)
             same = sum(1 for a, b in zip(outs, obs_ev) if ' '.join(t for t in a.split() if t != 'n') == b)
@@ -1102,6 +1556,8 @@ class C04(Property):
         return []
 
     def shrink(self, case):
+        if case.get('kind') == 'pp':
+            return
         if case.get('fault2'):
             yield {k: v for k, v in case.items() if k != 'fault2'}
         if case.get('ops'):
@@ -1114,7 +1570,7 @@ class C04(Property):
                     yield self.with_ops(case, ops[:i] + [m.group(1) + '6'] + ops[i + 1:])
             if not any(op in CLOSERS or op.startswith('wrap') or op in ('intrude', 'chdir') for op in ops):
                 yield {k: v for k, v in dict(case, sizes=ops_sizes(ops)).items() if k != 'ops'}
-            for key in ('reuse', 'rel', 'pathlib', 'pname', 'prior', 'cls'):
+            for key in ('reuse', 'rel', 'pathlib', 'pname', 'prior', 'cls', 'win'):
                 if case.get(key):
                     yield {k: v for k, v in case.items() if k != key}
             return
